@@ -80,6 +80,8 @@ M = [
   "            .filter(|disease| self.rhs.orpha_disease(disease.id()).is_none())", "            .filter(|disease| self.rhs.omim_disease(&crate::annotations::AnnotationId::as_u32(disease.id()).into()).is_none())", ["C18"]),
  ("c19-modifier-keeps-118-when-last", "C19", "src/ontology.rs",
   "            .filter(|id| id != &crate::PHENOTYPE_ID)\n            .collect();\n        Ok(())", "            .filter(|id| id != &crate::PHENOTYPE_ID || crate::annotations::AnnotationId::as_u32(id) > 200)\n            .take(5)\n            .collect();\n        Ok(())", ["C19"]),
+ ("harness-process-abort-is-reported", "C10", "src/ontology.rs",
+  "    pub fn hpo_version(&self) -> String {\n", "    pub fn hpo_version(&self) -> String {\n        if self.len() == 7 {\n            return self.hpo_version();\n        }\n", ["C10"]),
  ("c19-is-modifier-ancestors-only", "C19", "src/term/hpoterm.rs",
   "            .any(|modifier_root| (self.all_parent_ids() | self.id()).contains(&modifier_root))", "            .any(|modifier_root| self.all_parent_ids().contains(&modifier_root))", ["C19"]),
 ]
